@@ -163,11 +163,50 @@ def check_outputs(d, R):
   return fails
 
 
+SQUEEZE_EPS = 0.001      # the guard constant of _squeeze_by_scaling (delta > 0.001)
+ROOM_SLACK = 1e-9        # rounding slack on the comparison with that constant
+
+
+def squeeze_no_room(d, bias, side=None):
+  """Known finding D2, exactly (theorems C04_bounds_monotone_convex_when_bias_has_room /
+  ..._failure_needs_no_room): _squeeze_by_scaling never moves the bias and rescales the heights only when the room
+  between the bias and the bound the function runs towards exceeds 0.001.  True iff the bias (of the returned kernel:
+  the squeeze returns it unchanged) is outside the bounds or within 0.001 of the far bound.  side='min'/'max' asks
+  for the reason that can explain a violation of that bound (the near bound fails only through the bias itself, the
+  far bound only through missing room)."""
+  omin, omax, mono = d["omin"], d["omax"], d["mono"]
+  below_min = omin is not None and bias < omin
+  above_max = omax is not None and bias > omax
+  if mono == 1:
+    no_far_room = omax is not None and omax - bias <= SQUEEZE_EPS + ROOM_SLACK
+    return {"min": below_min, "max": no_far_room}.get(side, below_min or above_max or no_far_room)
+  no_far_room = omin is not None and bias - omin <= SQUEEZE_EPS + ROOM_SLACK
+  return {"min": no_far_room, "max": above_max}.get(side, below_min or above_max or no_far_room)
+
+
 def d2_class(case):
+  """monotone + convex + bounded, only 'bounds:'/'idempotence' clauses fail, AND the squeeze had no room: every unit
+  named by a failing 'bounds:' clause has a bias without room on the side of the violated bound (an 'idempotence'
+  clause needs some unit without room).  A bounds failure although the bias has room is NOT in the class."""
   d = case.desc
-  return (d.get("kind") == "proj" and d["mono"] != 0 and d["conv"] != 0 and
-          (d["omin"] is not None or d["omax"] is not None) and
-          all(c.startswith("bounds:") or c.startswith("idempotence") for c in (case.pred_fail or "").split("; ")))
+  if not (d.get("kind") == "proj" and d["mono"] != 0 and d["conv"] != 0 and
+          (d["omin"] is not None or d["omax"] is not None)):
+    return False
+  R = case.info.get("impl_output")
+  if not R:
+    return False
+  for c in (case.pred_fail or "").split("; "):
+    if c.startswith("bounds: unit "):
+      u = int(c[len("bounds: unit "):].split()[0])
+      side = "min" if "below output_min" in c else "max"
+      if not squeeze_no_room(d, R[0][u], side):
+        return False
+    elif c.startswith("idempotence"):
+      if not any(squeeze_no_room(d, R[0][u]) for u in range(d["units"])):
+        return False
+    else:
+      return False
+  return True
 
 
 def d3_class(case):
